@@ -230,6 +230,10 @@ def network(run, repo):
 
 R = 'pmutt/reaction/__init__.py'
 MUTANTS = [
+    {'name': 'the last expected argument of a callee is not looked up', 'expect': ('', ''),
+     'edits': [('pmutt/__init__.py', "    args = fn_code.co_varnames[:arg_count]", "    args = fn_code.co_varnames[:arg_count - 1]")]},
+    {'name': 'only the first expected argument is handed on', 'expect': ('', ''),
+     'edits': [('pmutt/__init__.py', "        try:\n            expected_arg_val[arg] = kwargs[arg]\n        except KeyError:\n            continue", "        try:\n            expected_arg_val[arg] = kwargs[arg]\n        except KeyError:\n            continue\n        break")]},
     {'name': 'delta is initial - final', 'expect': ('REF.delta', 'Reaction.get_delta_'),
      'edits': [(R, '            return final_quantity - initial_quantity', '            return initial_quantity - final_quantity')]},
     {'name': 'q state multiplies by coeff instead of power', 'expect': ('REF.state', 'get_q_state'),
